@@ -644,7 +644,7 @@ func init() {
 	h.Register(&h.Check{
 		ID:          "C11",
 		WatchdogSec: 1800, // one case is a whole BFS shard (minutes at depth 4); sub-cases tick, this is the ceiling for a single re-execution
-		Rule: "explicit-state BFS over API histories: a state is a pool of live objects plus every slice/map the caller still holds (arguments passed in, slices returned by SystemBytes/ToBytes/Variables); transitions are real producer/constructor/decoder calls and in-place mutations of the held values (overwrite, append within capacity, map insert/delete/overwrite); successors are built by replaying the history on fresh objects plus one transition; states are deduplicated by a canonical key (sorted observer snapshots, held contents, alias graph of private byte arrays read reflectively); invariant in every state: every existing object shows its creation snapshot and observers are idempotent; states = distinct canonical states",
+		Rule:        "explicit-state BFS over API histories: a state is a pool of live objects plus every slice/map the caller still holds (arguments passed in, slices returned by SystemBytes/ToBytes/Variables); transitions are real producer/constructor/decoder calls and in-place mutations of the held values (overwrite, append within capacity, map insert/delete/overwrite); successors are built by replaying the history on fresh objects plus one transition; states are deduplicated by a canonical key (sorted observer snapshots, held contents, alias graph of private byte arrays read reflectively); invariant in every state: every existing object shows its creation snapshot and observers are idempotent; states = distinct canonical states",
 		Build: func(tier string, seed int64) []h.Space {
 			depth := 3
 			if tier == "thorough" {
